@@ -36,7 +36,7 @@ type gen struct {
 	nextID  int
 }
 
-func (g *gen) pick(n int) int { return g.r.Intn(n) }
+func (g *gen) pick(n int) int        { return g.r.Intn(n) }
 func (g *gen) chance(p float64) bool { return g.r.Float64() < p }
 
 func pickOf[T any](g *gen, xs []T) T { return xs[g.pick(len(xs))] }
